@@ -18,7 +18,7 @@ import re, sys, os
 class TErr(Exception):
     pass
 
-TOK = re.compile(r"\s*(?:(0x[0-9a-fA-F_]+|\d[\d_]*)(u32|u64)?|([A-Za-z_][A-Za-z_0-9]*)|(>>|<<|\^=|[\^!().,;=:{}]|->))")
+TOK = re.compile(r"\s*(?:(0x[0-9a-fA-F_]+|\d[\d_]*)(u32|u64)?|([A-Za-z_][A-Za-z_0-9]*)|(>>|<<|\^=|!=|==|<=|>=|[\^!().,;=:{}<>]|->))")
 
 def tokenize(s):
     pos, out = 0, []
@@ -107,15 +107,64 @@ class P:
         raise TErr("unexpected token %s %s" % (k, v))
 
 
+def parse_cond(txt, width):
+    """COND ::= E (== | != | < | <= | > | >=) E   ->  a Lean Bool"""
+    toks = tokenize(txt)
+    for i, (k, v) in enumerate(toks):
+        if k == "op" and v in ("==", "!=", "<", "<=", ">", ">="):
+            pl, pr = P(toks[:i], width), P(toks[i + 1:], width)
+            a, b = pl.expr(), pr.expr()
+            if pl.peek()[0] != "eof" or pr.peek()[0] != "eof":
+                raise TErr("cannot parse condition: " + txt)
+            return {"==": "(%s == %s)", "!=": "(%s != %s)", "<": "(BitVec.ult %s %s)", "<=": "(BitVec.ule %s %s)",
+                    ">": "(BitVec.ult %s %s)", ">=": "(BitVec.ule %s %s)"}[v] % ((a, b) if v in ("==", "!=", "<", "<=") else (b, a))
+    raise TErr("condition without comparison: " + txt)
+
+
 def translate_fn(name, arg, width, body, mut_param=False):
     # strip comments
     body = re.sub(r"//[^\n]*", "", body)
+    # `if COND { assignments to the running variable }` (no else, not nested) becomes ONE statement `__ifK`
+    ifblocks = []
+    def _grab(mo):
+        ifblocks.append((mo.group(1), mo.group(2)))
+        return "__if%d;" % (len(ifblocks) - 1)
+    body = re.sub(r"\bif\s+([^{}]*?)\s*\{([^{}]*)\}", _grab, body)
+    if re.search(r"\belse\b", body):
+        raise TErr("`else` branches are not supported")
     stmts = [s.strip() for s in body.split(";")]
     tail = stmts[-1]
     stmts = [s for s in stmts[:-1] if s]
     main = arg if mut_param else None   # `fn f(mut key: uN)`: the parameter itself is the running variable
     steps, pending, assigned_tmp = [], [], set()
     for s in stmts:
+        mi = re.fullmatch(r"__if(\d+)", s)
+        if mi:
+            if main is None:
+                raise TErr("`if` before the running variable is bound")
+            cond_txt, inner = ifblocks[int(mi.group(1))]
+            cond = parse_cond(cond_txt, width)
+            for v in set(re.findall(r"\b([A-Za-z_]\w*)\b", re.sub(r"BitVec\.\w+", "", cond))):
+                if v != main and v not in assigned_tmp:
+                    raise TErr("condition reads %s, which is not assigned in its step" % v)
+            lets = []
+            for st in [x.strip() for x in inner.split(";") if x.strip()]:
+                mm = re.match(r"(?:let\s+(?:mut\s+)?)?(\w+)\s*(?::\s*u\d+)?\s*(\^=|=)\s*(.*)$", st, re.S)
+                if not mm:
+                    raise TErr("unsupported statement inside `if`: " + st)
+                pp = P(tokenize(mm.group(3)), width)
+                ee = pp.expr()
+                if pp.peek()[0] != "eof":
+                    raise TErr("trailing tokens in: " + st)
+                if mm.group(2) == "^=":
+                    ee = "(%s ^^^ %s)" % (mm.group(1), ee)
+                lets.append("let %s : BitVec %d := %s" % (mm.group(1), width, ee))   # temporaries or the running variable
+            e = "(if %s then (%s; %s) else %s)" % (cond, "; ".join(lets), main, main) if lets else main
+            steps.append((list(pending), e))
+            pending, assigned_tmp = [], set()
+            continue
+        if re.fullmatch(r"let\s+(?:mut\s+)?\w+\s*(?::\s*u\d+)?", s):
+            continue   # declaration without initialiser
         m = re.match(r"let\s+(?:mut\s+)?(\w+)\s*(?::\s*u(\d+))?\s*=\s*(.*)$", s, re.S)
         if m:
             var, w, rhs = m.group(1), m.group(2), m.group(3)
